@@ -336,6 +336,8 @@ Proof.
     destruct p; setters; cbn [acc]; rewrite ?app_nil_r; try reflexivity.
   all: des; setters; cbn [acc]; rewrite ?app_nil_r; try congruence; try reflexivity.
   all: unify_eqs; try congruence; try reflexivity.
+  (* ArrayVec::push on a full buffer (a panic) is excluded by the guard at the head of the arm *)
+  all: cbn [andb] in *; congruence.
 Qed.
 
 Lemma acc_acc {A} perf e1 (r : option (A * list event)) :
@@ -504,4 +506,18 @@ Lemma g_char_add_utf8 c u b : utf8_on c = true ->
 Proof.
   intros H. rewrite g_char_add_eq. unfold char_add. rewrite H.
   destruct (u8_parser_advance u b) as [u' o]. reflexivity.
+Qed.
+
+(* Action::OscPut with the translated buffer operations: `is_full` of the ArrayVec (`raw_full c`), the `#[cfg(feature =
+   "core")]` guard (`if cfg_core c`), and `push`, which on a full ArrayVec PANICS (None in the translation): equal to the
+   hand model, which has no such panic -- the guard excludes it *)
+Lemma g_osc_put_eq c p perf b :
+  g_perform_action c p perf AOscPut b = acc perf (perform_action c p AOscPut b).
+Proof. apply g_perform_action_eq. Qed.
+
+Lemma g_osc_put_byte_no_panic c p perf b :
+  b <> 59 -> g_perform_action c p perf AOscPut b <> None.
+Proof.
+  intros Hb. rewrite g_osc_put_eq. unfold perform_action.
+  destruct (osc_full c p); [discriminate|]. apply N.eqb_neq in Hb. rewrite Hb. discriminate.
 Qed.
